@@ -420,7 +420,8 @@ func (c *c10ctx) ruleR5() {
 		}
 		return typeName(f.Signature.Recv().Type())
 	}
-	for _, inv := range c.starterInvokes() {
+	for _, sstep := range c.starterSteps() {
+		inv, top := sstep.inv, sstep.top
 		step := CallOf(inv).Method.Name()
 		for _, impl := range c.impls(inv) {
 			D := recvOf(impl)
@@ -445,7 +446,7 @@ func (c *c10ctx) ruleR5() {
 				r.Fn(FuncName(impl))
 				// failing exits of the start function after this step that pass no call able to release
 				// the resource through a method of the same implementation
-				esc := ReachAvoiding(c.starter, inv, func(x ssa.Instruction) bool {
+				esc := ReachAvoiding(c.starter, top, func(x ssa.Instruction) bool {
 					if CallOf(x) == nil {
 						return false
 					}
